@@ -47,5 +47,9 @@ class Aitken(SequenceTransformer):
         gxn = self._iterates[-1]
 
         d2xn = dxn - dxn_1
+        denominator = d2xn.T @ d2xn
+        if denominator == 0.0:
+            # The residuals are stagnating: no acceleration.
+            return gxn
 
-        return gxn - (d2xn.T @ dxn) / (d2xn.T @ d2xn) * dxn
+        return gxn - (d2xn.T @ dxn) / denominator * dxn
